@@ -78,6 +78,13 @@ def run_job(job: dict) -> dict:
             res["graph"] = [[st.tree.path if st.tree is not None else None, key] for key, st in r.graph.items()]
         except Exception:  # noqa: BLE001
             res["graph"] = None
+        if job.get("view"):
+            # the view is dumped here, before the analyzer has seen (or changed) any mypy object
+            try:
+                import viewdump
+                res["_view"] = viewdump.dump_build(r, str(src))
+            except Exception as e:  # noqa: BLE001
+                res["view_err"] = f"{type(e).__name__}: {e}"
         return r
 
     def glob_wrapper(self, pattern, **k):
@@ -116,6 +123,8 @@ def run_job(job: dict) -> dict:
             if job.get("encode_api", True):
                 import apienc
                 res["api_sx"] = vlib.sx(apienc.api_sx(api))
+                res["flat_keys"] = [list(api.functions), list(api.results), list(api.parameters_), list(api.attributes_),
+                                    list(api.enums), list(api.enum_instances)]
             if job.get("doc_types"):
                 res["param_doc_types"] = {pid: ([] if pr.docstring.type is None else [vlib.ty_sx(pr.docstring.type)])
                                           for pid, pr in api.parameters_.items()}
@@ -152,6 +161,20 @@ def run_job(job: dict) -> dict:
         Path.glob = orig_glob  # type: ignore[method-assign]
         root_logger.handlers = old_handlers
         root_logger.setLevel(old_level)
+    if "_view" in res:
+        al, mods, trees = res.pop("_view")
+        try:
+            import viewdump
+            from safeds_stubgen.docstring_parsing import create_docstring_parser
+            root = viewdump.nearest_init_root(src)
+            with contextlib.redirect_stdout(stdout), contextlib.redirect_stderr(stdout):
+                parser = create_docstring_parser(style=DocstringStyle.from_string(job.get("docstyle", "plaintext")), package_path=root)
+                docs = viewdump.docs_for(trees, parser)
+            res["view_sx"] = vlib.sx([root.stem, job.get("docstyle", "plaintext"), bool(job.get("testrun", False)),
+                                      job.get("tsp", "code") == "docstring", job.get("tsw", "warn") == "warn",
+                                      res.get("glob") or [], al, mods, docs])
+        except Exception as e:  # noqa: BLE001
+            res["view_err"] = f"{type(e).__name__}: {e}"
     res["log"] = handler.records
     res["stdout"] = stdout.getvalue()[-500:]
     return res
